@@ -75,16 +75,17 @@ Proof. exact refuted_F09g. Qed.
 Print Assumptions C09_refuted_F09g.
 
 (* ---------------------------------------------------------------- (3) the two code paths *)
-(* C09_modes_agree, full statement (FALSE: F09c, F09d, F09e):
+(* C09_modes_agree, full statement (FALSE: F09c, F09d; F09e is fixed; [dedup_total] is fuel adequacy of the
+   model's suffix search, true whenever the real loop terminates):
      forall san g found, tree_force san g found = tree_temp san g. *)
 Theorem C09_modes_agree_partial : forall san g found,
-  guard_modes san g found = true -> tree_force san g found = tree_temp san g.
+  guard_modes g found = true -> dedup_total san g = true -> tree_force san g found = tree_temp san g.
 Proof. exact modes_agree_partial. Qed.
 Print Assumptions C09_modes_agree_partial.
 
 (* generate(force); generate(no force): succeeds and leaves the file system as it was *)
 Theorem C09_rerun_partial : forall san g found,
-  guard_modes san g found = true -> wf_layout san g = true ->
+  guard_modes g found = true -> dedup_total san g = true -> wf_layout san g = true ->
   run_noforce san g (tree_force san g found) = (ROk, tree_force san g found).
 Proof. exact rerun_partial. Qed.
 Print Assumptions C09_rerun_partial.
@@ -113,25 +114,27 @@ Proof. exact rerun_detects_stale. Qed.
 Print Assumptions C09_rerun_detects_stale.
 
 Theorem C09_refuted_F09c :
-  guard_F09c g_F09c = false /\ guard_F09d g_F09c [] = true /\ guard_F09e Proofs.Diff.idS g_F09c = true /\
+  guard_F09c g_F09c = false /\ guard_F09d g_F09c [] = true /\
   tree_force Proofs.Diff.idS g_F09c [] <> tree_temp Proofs.Diff.idS g_F09c /\
   fst (run_noforce Proofs.Diff.idS g_F09c (tree_force Proofs.Diff.idS g_F09c [])) = RDifferences.
 Proof. exact refuted_F09c. Qed.
 Print Assumptions C09_refuted_F09c.
 
 Theorem C09_refuted_F09d :
-  guard_F09c g_F09d = true /\ guard_F09d g_F09d found_F09d = false /\ guard_F09e Proofs.Diff.idS g_F09d = true /\
+  guard_F09c g_F09d = true /\ guard_F09d g_F09d found_F09d = false /\
   tree_force Proofs.Diff.idS g_F09d found_F09d <> tree_temp Proofs.Diff.idS g_F09d /\
   fst (run_noforce Proofs.Diff.idS g_F09d (tree_force Proofs.Diff.idS g_F09d found_F09d)) = RDifferences.
 Proof. exact refuted_F09d. Qed.
 Print Assumptions C09_refuted_F09d.
 
-Theorem C09_refuted_F09e :
-  guard_F09c g_F09e = true /\ guard_F09d g_F09e [] = true /\ guard_F09e Proofs.Diff.idS g_F09e = false /\
-  tree_force Proofs.Diff.idS g_F09e [] <> tree_temp Proofs.Diff.idS g_F09e /\
-  fst (run_noforce Proofs.Diff.idS g_F09e (tree_force Proofs.Diff.idS g_F09e [])) = RDifferences.
-Proof. exact refuted_F09e. Qed.
-Print Assumptions C09_refuted_F09e.
+Theorem C09_regression_F09e :
+  dedup_ops Proofs.Diff.idS [s_foo; s_foo; s_foo_2] = [s_foo; s_foo_2; s_foo_2 ++ [95;50]] /\
+  dedup_ops Proofs.Diff.idS (dedup_ops Proofs.Diff.idS [s_foo; s_foo; s_foo_2]) = dedup_ops Proofs.Diff.idS [s_foo; s_foo; s_foo_2] /\
+  guard_modes g_F09e [] = true /\ dedup_total Proofs.Diff.idS g_F09e = true /\
+  tree_force Proofs.Diff.idS g_F09e [] = tree_temp Proofs.Diff.idS g_F09e /\
+  fst (run_noforce Proofs.Diff.idS g_F09e (tree_force Proofs.Diff.idS g_F09e [])) = ROk.
+Proof. exact regression_F09e. Qed.
+Print Assumptions C09_regression_F09e.
 
 (* ---------------------------------------------------------------- non-vacuity of the guards *)
 Theorem C09_guard_nonvacuous :
@@ -141,7 +144,8 @@ Theorem C09_guard_nonvacuous :
   (guard_F09g new_F09b new_F09b = true /\ show_diffs new_F09b new_F09b = false /\
    guard_F09g old_F09b [(p_client, t_a1 ++ t_a1); (p_stale, t_a1)] = true /\
    show_diffs old_F09b [(p_client, t_a1 ++ t_a1); (p_stale, t_a1)] = true) /\
-  (guard_modes Proofs.Diff.idS g_plain [(s_client, [400])] = true /\ wf_layout Proofs.Diff.idS g_plain = true /\
+  (guard_modes g_plain [(s_client, [400])] = true /\ dedup_total Proofs.Diff.idS g_plain = true /\
+   wf_layout Proofs.Diff.idS g_plain = true /\
    length (tree_force Proofs.Diff.idS g_plain []) = 15%nat).
 Proof.
   exact (conj site2_nonvacuous (conj guard_diff_nonvacuous guard_modes_nonvacuous)).
